@@ -173,16 +173,16 @@ package mqtt
 //@   ensures[C18] on_error: evRet[error]("(*BaseClient).Publish", 0, 0) != nil ==> evCount("(*RetryClient).onError") == 1 &&
 //@        evArg[error]("(*RetryClient).onError", 0, 1) == evRet[error]("(*BaseClient).Publish", 0, 0)
 //@   ensures[C01,C03,C18] kept: evRet[error]("(*BaseClient).Publish", 0, 0) != nil && hasRetry(evRet[error]("(*BaseClient).Publish", 0, 0)) &&
-//@        evCount("select") == 1 && (evRet[int]("select", 0, 0) != 0 || timedOut(evRet[error]("context.Context.Err", 0, 0))) ==>
+//@        evCount("select") == 1 && (evRet[int]("select", 0, 0) != 0 || timedOut(ctx.Err())) ==>
 //@        queueAppended(c.retryQueue, qs, 1) && c.newRetryByError
 //@   ensures[C01,C18] cancel_is_callers: evCount("select") == 1 ==> evCount("context.Context.Done") == 1 && evArg[context.Context]("context.Context.Done", 0, 0) == ctx &&
 //@        evArg[<-chan struct{}]("select", 0, 0) == evRet[<-chan struct{}]("context.Context.Done", 0, 0) &&
 //@        (evCount("context.Context.Err") == 1 ==> evArg[context.Context]("context.Context.Err", 0, 0) == ctx)
 //@   ensures[C01,C03,C18] kept_handle: evRet[error]("(*BaseClient).Publish", 0, 0) != nil && hasRetry(evRet[error]("(*BaseClient).Publish", 0, 0)) &&
-//@        evCount("select") == 1 && (evRet[int]("select", 0, 0) != 0 || timedOut(evRet[error]("context.Context.Err", 0, 0))) ==>
+//@        evCount("select") == 1 && (evRet[int]("select", 0, 0) != 0 || timedOut(ctx.Err())) ==>
 //@        isBoundRetry(c.retryQueue[len(c.retryQueue)-1], evRet[error]("(*BaseClient).Publish", 0, 0))
 //@   ensures[C01,C03] untouched: evRet[error]("(*BaseClient).Publish", 0, 0) == nil || !hasRetry(evRet[error]("(*BaseClient).Publish", 0, 0)) ||
-//@        (evCount("select") == 1 && evRet[int]("select", 0, 0) == 0 && !timedOut(evRet[error]("context.Context.Err", 0, 0))) ==> queueAppended(c.retryQueue, qs, 0) && c.newRetryByError == n0
+//@        (evCount("select") == 1 && evRet[int]("select", 0, 0) == 0 && !timedOut(ctx.Err())) ==> queueAppended(c.retryQueue, qs, 0) && c.newRetryByError == n0
 //@   ensures[C03] one_request: evCount("(*BaseClient).Subscribe") == 0 && evCount("(*BaseClient).Unsubscribe") == 0 && evCount("go") == 0
 
 //@ func (*RetryClient).publish$2
@@ -261,13 +261,13 @@ package mqtt
 //@   ensures[C18] on_error: evRet[error]("(*BaseClient).Subscribe", 0, 1) != nil ==> evCount("(*RetryClient).onError") == 1 &&
 //@        evArg[error]("(*RetryClient).onError", 0, 1) == evRet[error]("(*BaseClient).Subscribe", 0, 1)
 //@   ensures[C01,C03,C18] kept: evRet[error]("(*BaseClient).Subscribe", 0, 1) != nil && hasRetry(evRet[error]("(*BaseClient).Subscribe", 0, 1)) &&
-//@        evCount("select") == 1 && (evRet[int]("select", 0, 0) != 0 || retry || timedOut(evRet[error]("context.Context.Err", 0, 0))) ==> queueAppended(c.retryQueue, qs, 1) && c.newRetryByError &&
+//@        evCount("select") == 1 && (evRet[int]("select", 0, 0) != 0 || retry || timedOut(ctx.Err())) ==> queueAppended(c.retryQueue, qs, 1) && c.newRetryByError &&
 //@        isBoundRetry(c.retryQueue[len(c.retryQueue)-1], evRet[error]("(*BaseClient).Subscribe", 0, 1))
 //@   ensures[C01,C18] cancel_is_callers: evCount("select") == 1 ==> evCount("context.Context.Done") == 1 && evArg[context.Context]("context.Context.Done", 0, 0) == ctx &&
 //@        evArg[<-chan struct{}]("select", 0, 0) == evRet[<-chan struct{}]("context.Context.Done", 0, 0) &&
 //@        (evCount("context.Context.Err") == 1 ==> evArg[context.Context]("context.Context.Err", 0, 0) == ctx)
 //@   ensures[C01,C03] untouched: evRet[error]("(*BaseClient).Subscribe", 0, 1) == nil || !hasRetry(evRet[error]("(*BaseClient).Subscribe", 0, 1)) ||
-//@        (evCount("select") == 1 && evRet[int]("select", 0, 0) == 0 && !retry && !timedOut(evRet[error]("context.Context.Err", 0, 0))) ==> queueAppended(c.retryQueue, qs, 0) && c.newRetryByError == n0
+//@        (evCount("select") == 1 && evRet[int]("select", 0, 0) == 0 && !retry && !timedOut(ctx.Err())) ==> queueAppended(c.retryQueue, qs, 0) && c.newRetryByError == n0
 //@   ensures[C01] result == nil
 //@   ensures[C03] one_request: evCount("(*BaseClient).Publish") == 0 && evCount("(*BaseClient).Unsubscribe") == 0 && evCount("go") == 0
 
@@ -306,13 +306,13 @@ package mqtt
 //@   ensures[C18] on_error: evRet[error]("(*BaseClient).Unsubscribe", 0, 0) != nil ==> evCount("(*RetryClient).onError") == 1 &&
 //@        evArg[error]("(*RetryClient).onError", 0, 1) == evRet[error]("(*BaseClient).Unsubscribe", 0, 0)
 //@   ensures[C01,C03,C18] kept: evRet[error]("(*BaseClient).Unsubscribe", 0, 0) != nil && hasRetry(evRet[error]("(*BaseClient).Unsubscribe", 0, 0)) &&
-//@        evCount("select") == 1 && (evRet[int]("select", 0, 0) != 0 || timedOut(evRet[error]("context.Context.Err", 0, 0))) ==> queueAppended(c.retryQueue, qs, 1) && c.newRetryByError &&
+//@        evCount("select") == 1 && (evRet[int]("select", 0, 0) != 0 || timedOut(ctx.Err())) ==> queueAppended(c.retryQueue, qs, 1) && c.newRetryByError &&
 //@        isBoundRetry(c.retryQueue[len(c.retryQueue)-1], evRet[error]("(*BaseClient).Unsubscribe", 0, 0))
 //@   ensures[C01,C18] cancel_is_callers: evCount("select") == 1 ==> evCount("context.Context.Done") == 1 && evArg[context.Context]("context.Context.Done", 0, 0) == ctx &&
 //@        evArg[<-chan struct{}]("select", 0, 0) == evRet[<-chan struct{}]("context.Context.Done", 0, 0) &&
 //@        (evCount("context.Context.Err") == 1 ==> evArg[context.Context]("context.Context.Err", 0, 0) == ctx)
 //@   ensures[C01,C03] untouched: evRet[error]("(*BaseClient).Unsubscribe", 0, 0) == nil || !hasRetry(evRet[error]("(*BaseClient).Unsubscribe", 0, 0)) ||
-//@        (evCount("select") == 1 && evRet[int]("select", 0, 0) == 0 && !timedOut(evRet[error]("context.Context.Err", 0, 0))) ==> queueAppended(c.retryQueue, qs, 0) && c.newRetryByError == n0
+//@        (evCount("select") == 1 && evRet[int]("select", 0, 0) == 0 && !timedOut(ctx.Err())) ==> queueAppended(c.retryQueue, qs, 0) && c.newRetryByError == n0
 //@   ensures[C01] result == nil
 //@   ensures[C03] one_request: evCount("(*BaseClient).Publish") == 0 && evCount("(*BaseClient).Subscribe") == 0 && evCount("go") == 0
 
